@@ -104,8 +104,34 @@ def d_c06_groups():
     return f'DEFECT: groups closer than min sep: {bad}' if bad else f'ok {b}'
 
 
+def d_c20_emptyplot():
+    import matplotlib
+    matplotlib.use('Agg')
+    from ampycloud.plots import diagnostic
+    ch = ampycloud.run(frame([['a', 0.0, 5000, 2], ['a', -15.0, 5100, 2], ['a', -30.0, 5200, 2]]), prms={'MSA': 1000})
+    try:
+        diagnostic(ch, upto='layers', show=False)
+        return 'ok'
+    except Exception as e:
+        return f'DEFECT: {type(e).__name__}: {str(e)[:80]}'
+
+
+def d_c12_emptyyaml():
+    import tempfile
+    p = tempfile.mktemp(suffix='.yml')
+    open(p, 'w').write('# MSA: 3000\n')
+    try:
+        ampycloud.set_prms(p)
+        return 'ok'
+    except Exception as e:
+        return f'DEFECT: {type(e).__name__}: {str(e)[:80]}'
+    finally:
+        os.unlink(p)
+        ampycloud.reset_prms()
+
+
 if __name__ == '__main__':
-    for f in (d_c14, d_c10, d_c05, d_c08_bundle, d_c08_empty, d_c06_layers, d_c06_groups):
+    for f in (d_c14, d_c10, d_c05, d_c08_bundle, d_c08_empty, d_c06_layers, d_c06_groups, d_c20_emptyplot, d_c12_emptyyaml):
         try:
             print(f.__name__, '->', f())
         except Exception as e:
